@@ -11,10 +11,10 @@ from vf.props import _play as PL
 ID = 'C18'
 LEVEL = 'exploration'
 RULE = ('sequences of 1-6 board results from Hypothesis: event/site/four player names over letters, digits, space and '
-        ". , - _ / ( ) ' + # : (0-100 chars, some up to 230; runs of blanks included), dates with years 1000-9999, board "
+        ". , - _ / ( ) ' + # : (0-100 chars, some up to 230, some exactly as long as one 255-character line allows or 1-3 shorter; runs of blanks included), dates with years 1000-9999, board "
         'number >= 1, every dealer / vulnerability / deal / Scoring member / contract (35 bids x 3 doubling states x '
         'declarer, both passed-out forms) / result 0-13; with and without write_header(); consecutive '
-        'write_board_result calls on ONE PbnWriter over a StringIO. Oracle: PbnParser().parse_all returns exactly n '
+        'write_board_result calls on one PbnWriter over a StringIO - in a third of the cases continued by a SECOND PbnWriter on the same stream - and read either by fresh PbnParser objects or by one parser object used twice. Oracle: PbnParser().parse_all returns exactly n '
         'games in order, each with the 15 mandatory tags carrying the written values (Vulnerable in PBN spelling, '
         'Declarer "" / Result "" / Contract "Pass" when passed out, Deal decoding to the same hands); '
         'parse_board_settings recovers deal, dealer, vulnerability and board number per game; every written line incl. '
